@@ -8,6 +8,7 @@ import SonicModel.Impl.Entry
 import SonicModel.Lemmas.StrictLazy
 import SonicModel.Lemmas.DomParseProof
 import SonicModel.Lemmas.NumSkipProof
+import SonicModel.Lemmas.StrBlockProof
 namespace Sonic.Thm.C02
 open Sonic Gen
 
@@ -87,6 +88,13 @@ theorem decoding_parser_accepts_wellformed (buf : Buf) (s e : Nat) (h : Spec.doc
     (DomP.document buf).isSome := by
   obtain ⟨t, _, ht⟩ := DomP.document_of_strict buf s e h
   rw [ht]; rfl
+
+/-- **the checked `skip_string` with its 32-byte blocks is the scalar `skip_string`** (the mask of backslash, quote and control
+    lanes, its first set lane, `skip_escaped_chars` after a backslash, the bytewise loop over the last bytes): it always
+    terminates and gives the same end, or the same error code at the same position, for every buffer and every start -/
+theorem string_block_loop_is_scalar_scan (buf : Buf) (i : Nat) :
+    StrBlock.skipStringB buf buf.size (buf.size + 1) i = Impl.skipString buf buf.size i :=
+  StrBlock.skipStringB_eq buf buf.size _ i (StrBlock.skipStringB_fuel buf _ i (by omega) (by omega))
 
 /-- **the 32-lane loop of `do_skip_number` is the scalar scan** (Impl/NumSkip.lean: blocks of 32 bytes while 32 remain, the
     fraction's first digit checked inside the block, the shifted mask, the two `continue`s that carry `is_float`, the scalar
